@@ -189,28 +189,35 @@ CLAIMED = {
             "a well-formed --init; an argument that looks like a flag but is none is refused on the spot; a --throttle "
             "value that is not a decimal number is refused in both syntaxes, and an accepted one is a natural number; the "
             "two spellings `--throttle=v` / `--throttle v` (and `--init=v` / `--init v`) continue the flag loop identically "
-            "for every text v. NOT "
+            "for every text v; after a bare -- every argument is a file name taken as written "
+            "(C18_after_dashdash_literal). NOT "
             "theorems: exit statuses 0/1/3, absence of tracebacks, stdout/stderr separation, the assemble files — decided "
             "by the oracle on hera.main.main over enumerated vectors x valid, invalid, warning-only, empty, hex, missing, "
-            "directory, path-through-a-file, over-long name, non-ASCII and unwritable inputs, and by comparing the two "
-            "spellings of valued flags on the real parser.",
+            "directory, path-through-a-file, over-long name, non-ASCII and unwritable inputs, debugging sessions typed on "
+            "standard input, and by comparing the two spellings of valued flags on the real parser.",
             "trusted: Model/Cli.v (differential on enumerated argument vectors), the oracle in tools/props/C18.py"),
     "C19": ("PARTIAL proof. Coq theorems on the hand model of the library's div/mod arithmetic (Model/Stdlib.v, shared by "
             "both calling conventions): for all 16-bit arguments div is signed division truncating towards zero and mod "
             "its remainder (sign of the dividend), a zero divisor gives zero, results are 16-bit words and "
             "divisor*quotient+remainder recomposes the dividend; and, on the specification machine of C01, the full "
-            "contract for every machine state of eight routines written in HERA assembly: size, ord, not and malloc in both "
+            "contract for every machine state of ten routines written in HERA assembly: size, ord, not and malloc in both "
             "calling conventions (result, return to the caller, FP restored, SP and the caller's registers unchanged, exactly "
             "which memory cells are written), `not` and the stack `malloc` being placed at an arbitrary address (their label "
             "branches are absolute); malloc is shown to refine a bump allocator on the cell 0x4000, and for that allocator "
             "the blocks handed out over ANY request sequence are pairwise disjoint and strictly inside the heap "
             "(C19_malloc_blocks_disjoint); these rest on C19_core_simulation (registers/memory/pc/flags of the Spec machine "
             "evolve independently of hera-py's bookkeeping) and on instruction lists compared with what the real loader "
-            "produces from hera/stdlib.py at three load addresses. NOT theorems: chr, concat, substring, tstrcmp (loops, "
-            "calls into malloc), the failure path of malloc (prints and exits) and the I/O functions — decided by running each "
+            "produces from hera/stdlib.py at three load addresses. A routine with a loop: the word copy used by concat and "
+            "substring is proved for EVERY count by induction (C19_memcpy_contract: memory becomes the forward copy, pointers "
+            "advance, counter zero, return; C19_copy_moves_the_words / C19_copy_leaves_the_rest say what a forward copy between "
+            "disjoint regions does). A routine that calls a routine: the register chr, in any program map holding chr and "
+            "malloc, returns a fresh allocator block holding [1; c] (C19_chr_reg_contract; the callee's contract is reused "
+            "inside the caller's run). NOT theorems: the stack chr, concat, substring, tstrcmp, the failure path of malloc "
+            "(prints and exits) and the I/O functions — decided by running each "
             "function in both conventions on the real interpreter with edge/random arguments under random register "
             "contents (result vs independent computation, return to the caller, SP/FP restored, R1..R10 preserved in the "
-            "stack convention, malloc blocks disjoint).",
+            "stack convention, malloc blocks disjoint, returned strings inside their block, getchar_ord over several input "
+            "lines).",
             "trusted: Model/Stdlib.v (differential on an edge grid + random words), the oracle in tools/props/C19.py; "
             "known finding D45 (stack getline)"),
 }
